@@ -271,8 +271,18 @@ def vrejects(validator, v):
     return False
 
 
+_VALIDATORS_OF = {}
+
+
 def validators_of(e):
-    return list(e.validators)
+    """The list `e.validators` denotes: one list per element object (kept with the element so ids are not reused)."""
+    k = id(e)
+    if k not in _VALIDATORS_OF or _VALIDATORS_OF[k][0] is not e:
+        _VALIDATORS_OF[k] = (e, list(e.validators))
+        if len(_VALIDATORS_OF) > 20000:
+            _VALIDATORS_OF.clear()
+            _VALIDATORS_OF[k] = (e, list(e.validators))
+    return _VALIDATORS_OF[k][1]
 
 
 def accepts_all(vs, v):
